@@ -1,3 +1,4 @@
+pub mod isolate;
 pub mod member;
 pub mod props;
 pub mod run;
